@@ -147,7 +147,9 @@ func c14Sched(c *vrep.Ctx) {
 	for _, o := range ops {
 		desc = append(desc, fmt.Sprintf("%s(%q)", o.kind, o.arg))
 	}
-	c.R.Rule = fmt.Sprintf("controlled scheduler on the instrumented stringclassifier (sync -> vsync shims, go -> modelled threads, access events on knownValue.set / Classifier.values / matcher.queue): concurrent calls %v on one classifier (values added %s); every interleaving of the callers AND of the goroutines the library spawns within %s bound %d; oracle: no happens-before data race on the watched locations (vector clocks), no deadlock, no panic, every call returns what it returns in some sequential order of the calls; states counted as explored schedules, transitions as scheduling decisions", desc, map[bool]string{false: "by AddValue, search sets built lazily", true: "by AddPrecomputedValue"}[precomputed], c.Param("policy", "delay"), budget)
+	c.R.Rule = "controlled scheduler on the instrumented stringclassifier (sync -> vsync shims, go -> modelled threads, access events on knownValue.set / Classifier.values / matcher.queue): 2-3 concurrent calls (scenario in bounds_completed) on one classifier; every interleaving of the callers AND of the goroutines the library spawns within the stated delay/preemption bound; oracle: no happens-before data race on the watched locations (vector clocks), no deadlock, no panic, and the joint outcome (every call's result + a final-state probe) equals the outcome of some sequential order of the calls; states = explored schedules, transitions = scheduling decisions; non-trivial = schedules in which at least two threads were enabled at the same time"
+	c.Bound("scenario", fmt.Sprintf("%v (values added %s)", desc, map[bool]string{false: "by AddValue, search sets built lazily", true: "by AddPrecomputedValue"}[precomputed]))
+	c.Assume("regexp, go-diff and the runtime are atomic steps for the scheduler; RWMutex writer preference is not modelled (explored behaviours are a superset); locations other than the three watched ones are covered by the free-running -race pass only")
 	c.Bound(c.Param("policy", "delay")+"_bound", budget)
 	c.Bound("caller_threads", len(ops))
 	maxThreads := 0
